@@ -386,6 +386,9 @@ def run(prog, rep):
     rep.floor("C05.5", 2)
 
 
+# generic robustness battery: renaming every local/parameter in these files must not change any verdict
+RENAME_LOCALS = ['src/puthread.c', 'src/puthread-posix.c']
+
 SELFTEST = [
     dict(id="ref-count-one-plus-late-ref", expect="C05.2", edits=[
         dict(file="src/puthread.c", old="\t\tbase_thread->ref_count = 2;", new="\t\tbase_thread->ref_count = 1;"),
